@@ -9,17 +9,18 @@
    The same holds for every pair of shifts with sb <= 8 and Get < 2^(sa+sb) (FPAQ: 8/8, 16 bits).
    Not proved: the predictors themselves keep Get in range (observed on every run), the encoder never
    runs out of its buffer with the real predictors, and the other codecs (HUFFMAN, ANS0/1, RANGE,
-   NONE; FPAQ's own chunking): decided by search with a sentinel on the real code. *)
+   NONE): decided by search with a sentinel on the real code.  FPAQ is proved as a whole (its predictor is
+   modelled, see C12_fpaq_roundtrip). *)
 From Coq Require Import List NArith ZArith.
-From KV Require Import Model.OutBS Model.BinCoder Proofs.BinCoderProofs.
+From KV Require Import Model.OutBS Model.BinCoder Model.FPAQ Proofs.BinCoderProofs.
 Import ListNotations.
 Open Scope N_scope.
 
 Theorem C12_binary_coder_roundtrip : forall (PS : Type) (pget : PS -> N) (pupd : PS -> bool -> PS),
   (forall ps, pget ps < 4096) ->
   forall ps0 block out, bytes_ok block ->
-  encode 4 8 PS pget pupd ps0 block = Some out ->
-  forall rest, decode 4 8 PS pget pupd ps0 (N.of_nat (length block)) (out ++ rest) = DOk block rest.
+  bin_encode 4 8 PS pget pupd ps0 block = Some out ->
+  forall rest, bin_decode 4 8 PS pget pupd ps0 (N.of_nat (length block)) (out ++ rest) = DOk block rest.
 Proof.
   intros PS pget pupd Hp ps0 block out Hok He rest.
   apply (coder_roundtrip 4 8 ltac:(discriminate) PS pget pupd Hp ps0 block out Hok He rest).
@@ -29,10 +30,29 @@ Print Assumptions C12_binary_coder_roundtrip.
 Theorem C12_binary_coder_roundtrip_any_precision : forall sa sb (PS : Type) (pget : PS -> N) (pupd : PS -> bool -> PS),
   sb <= 8 -> (forall ps, pget ps < 2 ^ (sa + sb)) ->
   forall ps0 block out, bytes_ok block ->
-  encode sa sb PS pget pupd ps0 block = Some out ->
-  forall rest, decode sa sb PS pget pupd ps0 (N.of_nat (length block)) (out ++ rest) = DOk block rest.
+  bin_encode sa sb PS pget pupd ps0 block = Some out ->
+  forall rest, bin_decode sa sb PS pget pupd ps0 (N.of_nat (length block)) (out ++ rest) = DOk block rest.
 Proof. intros sa sb PS pget pupd Hsb Hp. apply (coder_roundtrip sa sb Hsb PS pget pupd Hp). Qed.
 Print Assumptions C12_binary_coder_roundtrip_any_precision.
+
+(* FPAQ as a whole (entropy/FPAQCodec.go, Model/FPAQ.v: its adaptive predictor, 4 MiB chunks, its own
+   buffer and acceptance rules, around the same coder with shifts 8/8): for EVERY block, if the encoder
+   did not run out of its buffer, the decoder returns the block and leaves exactly what follows *)
+Theorem C12_fpaq_roundtrip : forall block out, bytes_ok block -> fpaq_encode block = Some out ->
+  forall rest, fpaq_decode (N.of_nat (length block)) (out ++ rest) = DOk block rest.
+Proof.
+  intros block out Hok He rest. unfold fpaq_encode, fpaq_decode in *.
+  apply (fpaq_framing_roundtrip fps fpaq_get fpaq_upd fpaq_reset); [|exact Hok|exact He].
+  intros ps. unfold fpaq_get. apply N.min_lt_iff. right. reflexivity.
+Qed.
+Print Assumptions C12_fpaq_roundtrip.
+
+Example C12_fpaq_instance :
+  match fpaq_encode [104; 101; 108; 108; 111; 32; 104; 101; 108; 108; 111; 0; 255; 255] with
+  | Some out => fpaq_decode 14 (out ++ [9; 9]) = DOk [104; 101; 108; 108; 111; 32; 104; 101; 108; 108; 111; 0; 255; 255] [9; 9]
+  | None => False
+  end.
+Proof. vm_compute. reflexivity. Qed.
 
 (* VarInt, as used for the chunk sizes *)
 Theorem C12_varint_roundtrip : forall v r, v < 268435456 -> read_varint (varint v ++ r) = Some (v, r).
@@ -44,8 +64,8 @@ Example C12_instance :
   let pget := fun ps : list N => hd 2048 ps in
   let pupd := fun (ps : list N) (_ : bool) => tl ps in
   let ps0 := [100; 4000; 2048; 7; 4095; 0; 300; 2000; 1000; 3000; 50; 4000; 2048; 2048; 1; 4094] in
-  match encode 4 8 (list N) pget pupd ps0 [200; 3; 255; 0; 77] with
-  | Some out => decode 4 8 (list N) pget pupd ps0 5 (out ++ [1; 2; 3; 4]) = DOk [200; 3; 255; 0; 77] [1; 2; 3; 4] /\ (7 < length out)%nat
+  match bin_encode 4 8 (list N) pget pupd ps0 [200; 3; 255; 0; 77] with
+  | Some out => bin_decode 4 8 (list N) pget pupd ps0 5 (out ++ [1; 2; 3; 4]) = DOk [200; 3; 255; 0; 77] [1; 2; 3; 4] /\ (7 < length out)%nat
   | None => False
   end.
 Proof. vm_compute. split; [reflexivity|repeat constructor]. Qed.
